@@ -525,6 +525,9 @@ func (fc *FCtx) specCall(n *SNode, env *Env) Val {
 		if isBz(args[0].S) {
 			return Val{T: app("bz_len", args[0].T), S: SInt}
 		}
+		if args[0].S.Kind == KMap {
+			return Val{T: app(fc.mapCard(args[0].S), args[0].T), S: SInt}
+		}
 		oos("spec: len of %s", args[0].S.Name)
 	case "cap":
 		evalArgs()
@@ -574,6 +577,11 @@ func (fc *FCtx) specCall(n *SNode, env *Env) Val {
 	case "enc":
 		evalArgs()
 		return Val{T: app(fc.encFn(args[0].S), args[0].T), S: fc.U.BzSort()}
+	case "sdkctx":
+		evalArgs()
+		cs := fc.ctxTheory()
+		fc.U.Fun("unwrap_ctx", []*Sort{args[0].S}, cs)
+		return Val{T: app("unwrap_ctx", args[0].T), S: cs}
 	case "bzslice":
 		evalArgs()
 		return Val{T: fmt.Sprintf("(bz_slice %s %s %s)", fc.toBz(args[0]), args[1].T, args[2].T), S: fc.U.BzSort()}
